@@ -12,16 +12,16 @@ Local Open Scope nat_scope.
    loud class D30 (C08_refuted_depth2); with the depth guard added it is C08_run_partial, proved below for whole
    runs of any length. *)
 Definition C08_full_statement : Prop :=
-  forall s vectorize depth T dt W inputs x0,
+  forall s vectorize depth T dt udef W inputs x0,
     forallb (input_ok vectorize (rnd (T / dt))) inputs = true -> rows_fit T dt dt = true -> frame_ok T dt = true ->
-    run_inputs s vectorize depth T dt W inputs x0 = Rows (spec_run_inputs s T dt W inputs x0).
+    run_inputs s vectorize depth T dt udef W inputs x0 = Rows (spec_run_inputs s T dt udef W inputs x0).
 
 (* -------- whole runs -------- *)
 (* guards: inputs_guard = depth_ok (depth < 2 or no inputs) + every input in an accepted form, long enough, target
    list without repetition; rows_fit / frame_ok are C03's guards (here dts = dt) *)
-Theorem C08_run_partial : forall s vectorize depth T dt W inputs x0,
+Theorem C08_run_partial : forall s vectorize depth T dt udef W inputs x0,
   inputs_guard vectorize depth T dt inputs = true -> rows_fit T dt dt = true -> frame_ok T dt = true ->
-  run_inputs s vectorize depth T dt W inputs x0 = Rows (spec_run_inputs s T dt W inputs x0).
+  run_inputs s vectorize depth T dt udef W inputs x0 = Rows (spec_run_inputs s T dt udef W inputs x0).
 Proof. exact run_inputs_partial. Qed.
 Print Assumptions C08_run_partial.
 
@@ -81,17 +81,25 @@ Theorem C08_inputs_add : forall sample inp inputs i,
 Proof. exact forcing_cons. Qed.
 Print Assumptions C08_inputs_add.
 
+(* default rule: the declared default of the input variable is used by exactly the units without any source *)
+Theorem C08_default_uncovered : forall udef W inputs i, covered W inputs i = false -> base udef W inputs i = udef.
+Proof. exact base_uncovered. Qed.
+Print Assumptions C08_default_uncovered.
+Theorem C08_default_replaced : forall udef W inp inputs i, In inp inputs -> In i (snd inp) -> base udef W inputs i = 0%Qc.
+Proof. intros udef W inp inputs i H1 H2. apply base_covered. exact (covered_by_input W inp inputs i H1 H2). Qed.
+Print Assumptions C08_default_replaced.
+
 (* -------- right time -------- *)
-Theorem C08_input_at_step_euler : forall W inputs dt k x,
-  fst (euler_step (net_rhs W inputs) dt tt k x) = vadd x (vscale dt (fst (net_rhs W inputs tt k x))).
+Theorem C08_input_at_step_euler : forall udef W inputs dt k x,
+  fst (euler_step (net_rhs udef W inputs) dt tt k x) = vadd x (vscale dt (fst (net_rhs udef W inputs tt k x))).
 Proof. exact input_at_step_euler. Qed.
 Print Assumptions C08_input_at_step_euler.
 
 (* both Heun stages read sample k *)
-Theorem C08_input_at_step_heun : forall W inputs dt k x,
-  fst (heun_step (net_rhs W inputs) dt tt k x) =
-  let r1 := fst (net_rhs W inputs tt k x) in
-  vadd x (vscale (dt / Q2Qc 2)%Qc (vadd r1 (fst (net_rhs W inputs tt k (vadd x (vscale dt r1)))))).
+Theorem C08_input_at_step_heun : forall udef W inputs dt k x,
+  fst (heun_step (net_rhs udef W inputs) dt tt k x) =
+  let r1 := fst (net_rhs udef W inputs tt k x) in
+  vadd x (vscale (dt / Q2Qc 2)%Qc (vadd r1 (fst (net_rhs udef W inputs tt k (vadd x (vscale dt r1)))))).
 Proof. exact input_at_step_heun. Qed.
 Print Assumptions C08_input_at_step_heun.
 
@@ -132,15 +140,15 @@ Proof. exact lin_at_left. Qed.
 Print Assumptions C08_interp_at_sample.
 
 (* -------- the loud class D30 -------- *)
-Theorem C08_depth2_raises : forall s vectorize depth T dt W inputs x0, 2 <= depth -> inputs <> [] ->
-  run_inputs s vectorize depth T dt W inputs x0 = ErrAttribute.
+Theorem C08_depth2_raises : forall s vectorize depth T dt udef W inputs x0, 2 <= depth -> inputs <> [] ->
+  run_inputs s vectorize depth T dt udef W inputs x0 = ErrAttribute.
 Proof. exact run_inputs_depth2. Qed.
 Print Assumptions C08_depth2_raises.
 
 Theorem C08_refuted_depth2 :
-  run_inputs Euler true 2 (mkq 1 1) (mkq 1 4) [[mkq 0 1]] [(A1 [mkq 1 1; mkq 2 1; mkq 4 1; mkq 8 1], [0])] [mkq 1 2] = ErrAttribute /\
+  run_inputs Euler true 2 (mkq 1 1) (mkq 1 4) (mkq 0 1) [[mkq 0 1]] [(A1 [mkq 1 1; mkq 2 1; mkq 4 1; mkq 8 1], [0])] [mkq 1 2] = ErrAttribute /\
   depth_ok 2 [(A1 [mkq 1 1; mkq 2 1; mkq 4 1; mkq 8 1], [0])] = false /\
-  outcome_eqb (Rows (spec_run_inputs Euler (mkq 1 1) (mkq 1 4) [[mkq 0 1]] [(A1 [mkq 1 1; mkq 2 1; mkq 4 1; mkq 8 1], [0])] [mkq 1 2]))
+  outcome_eqb (Rows (spec_run_inputs Euler (mkq 1 1) (mkq 1 4) (mkq 0 1) [[mkq 0 1]] [(A1 [mkq 1 1; mkq 2 1; mkq 4 1; mkq 8 1], [0])] [mkq 1 2]))
               (Rows [[mkq 0 1; mkq 1 2]; [mkq 1 4; mkq 3 4]; [mkq 1 2; mkq 5 4]; [mkq 3 4; mkq 9 4]]) = true.
 Proof. exact refuted_depth2. Qed.
 Print Assumptions C08_refuted_depth2.
@@ -151,9 +159,9 @@ Example C08_nonvacuous :
   let inputs := [(A2 [[mkq 1 1; mkq 10 1]; [mkq 2 1; mkq 20 1]; [mkq 4 1; mkq 40 1]; [mkq 8 1; mkq 80 1]], [0; 1]);
                  (A1 [mkq 1 1; mkq (-1) 1; mkq 3 1; mkq 5 1], [1])] in
   inputs_guard true 1 (mkq 1 1) (mkq 1 4) inputs = true /\
-  outcome_eqb (run_inputs Heun true 1 (mkq 1 1) (mkq 1 4) [[mkq 0 1; mkq 0 1]; [mkq 2 1; mkq 0 1]] inputs [mkq 1 2; mkq 1 1])
-              (Rows (spec_run_inputs Heun (mkq 1 1) (mkq 1 4) [[mkq 0 1; mkq 0 1]; [mkq 2 1; mkq 0 1]] inputs [mkq 1 2; mkq 1 1])) = true /\
-  row_eqb (nth 1 (spec_run_inputs Heun (mkq 1 1) (mkq 1 4) [[mkq 0 1; mkq 0 1]; [mkq 2 1; mkq 0 1]] inputs [mkq 1 2; mkq 1 1]) [])
+  outcome_eqb (run_inputs Heun true 1 (mkq 1 1) (mkq 1 4) (mkq 0 1) [[mkq 0 1; mkq 0 1]; [mkq 2 1; mkq 0 1]] inputs [mkq 1 2; mkq 1 1])
+              (Rows (spec_run_inputs Heun (mkq 1 1) (mkq 1 4) (mkq 0 1) [[mkq 0 1; mkq 0 1]; [mkq 2 1; mkq 0 1]] inputs [mkq 1 2; mkq 1 1])) = true /\
+  row_eqb (nth 1 (spec_run_inputs Heun (mkq 1 1) (mkq 1 4) (mkq 0 1) [[mkq 0 1; mkq 0 1]; [mkq 2 1; mkq 0 1]] inputs [mkq 1 2; mkq 1 1]) [])
           [mkq 1 4; mkq 3 4; mkq 65 16] = true.
 Proof. repeat split; vm_compute; reflexivity. Qed.
 Print Assumptions C08_nonvacuous.
